@@ -3,7 +3,7 @@ import ast
 
 from ..model import AnalysisError
 from ..lib import (FV, Alias, alias_term, decode_new, decode_call, phi_members, is_sym, is_const, is_str, strip_stores, stores_of,
-                   find_assign, find_assigns, simple_assigns, local_term)
+                   find_assign, find_assigns, simple_assigns, local_term, cond_equiv, cond_implies, path_term)
 from ..cfg import always_raises, walk_stmts
 from . import common as cm
 from . import geom
@@ -33,6 +33,21 @@ METHODS = ["__call__", "scalar", "lightness", "vector", "contour", "_filter_valu
            "_setup_multiplier"]
 PT = {"filter_field": FIELD, "lightness_field": FIELD, "color_field": FIELD, "field": FIELD}
 
+AUTOMUT_TRIAGE = [
+    (r"\.lightness$", r"cw_ax\.|colorwheel", "the colour-wheel inset is decoration"),
+    (r"\.lightness$", r"drop keyword (figsize|colorwheel\w*|filename)=", "figure size, colour wheel and file name are presentation options"),
+    (r"\.scalar$", r"symmetric_clim|vmin|vmax|clim", "colour limits do not change the numbers handed to matplotlib"),
+    (r"__call__$", r"_kw|setdefault", "keyword plumbing of presentation options (colour use, colour bar)"),
+    (r"\.vector$", r"use_color|colorbar|color_field|len\(vdims\)|arrow_x is None", "colouring options and label-count refusals; the arrow "
+     "components and positions are checked (C20.D2/D4)"),
+    (r"hls2rgb$", r"lightness|saturation", "lightness/saturation scaling are colour choices; the hue (the field's angle) is checked"),
+    (r"normalise_to_range$", r"int_round|round|astype", "integer rounding is not used for colours"),
+    (r"inplane_angle$", r"drop keyword unit=", "the unit label of the angle field is not drawn"),
+    (r"inplane_angle$", r"angle_array < 0.*Lt->LtE", "equivalent for colours: hue 0 and hue 1 (angle 0 and 2 pi) are the same colour"),
+    (r"\.lightness$", r"drop keyword saturation=", "equivalent: None is hls2rgb's default saturation"),
+    (r"\.vector$", r"self\.field\.nvdim != 3", "decides only whether automatic colouring is possible (a warning and use_color=False)"),
+]
+
 
 def run(chk):
     repo = chk.repo
@@ -42,6 +57,7 @@ def run(chk):
     d4_components(chk, repo)
     d5_hiding(chk, repo)
     d6_refusals(chk, repo)
+    d7_selection(chk, repo)
     chk.trust("matplotlib imshow(A, origin='lower', extent=[x0,x1,y0,y1]) shows A[row, col] with rows along y; quiver/contour(X, Y, "
               "U...) take arrays indexed [y, x]")
     chk.assume("what matplotlib renders is not decided")
@@ -446,3 +462,230 @@ def d6_refusals(chk, repo):
         ok2 = geom._guard_in_function(w, f"{name}.mesh.region.ndim != 2")
         chk.ob(f"{q}::{who}-field-must-be-scalar-2d", ok1 and ok2, "C20.D6",
                f"a {who} field with nvdim != 1 or ndim != 2 must raise ValueError", w.f)
+
+
+# ------------------------------------------------------------------ D7
+def d7_selection(chk, repo):
+    chk.rule("C20.D7", "branch selection and hand-over: the validity field replaces a missing filter (never a given one); the "
+                       "combined plot draws scalars for 1, arrows for 2 and both for 3 components and forwards axes and "
+                       "multiplier; arrows are anchored at their middle (the cell centre); lightness plots of vector fields take "
+                       "the hue from the in-plane angle and the lightness from the remaining component, forward filter, axes and "
+                       "multiplier, and assemble RGBA from the filtered colours; the in-plane angle is arctan2(y, x) wrapped to "
+                       "[0, 2 pi) and the hue is that angle scaled from (0, 2 pi) to (0, 1)")
+    dflt_txt = "self.field._valid_as_field"
+    for m in ("scalar", "contour", "lightness"):
+        v = FV(repo, f"{MPL}.{m}", param_types=PT)
+        n = 0
+        for st in v.stmts():
+            if isinstance(st, ast.Assign) and isinstance(st.targets[0], ast.Name) and v.eq(v.term(st.value, at=st), v.spec(dflt_txt)):
+                n += 1
+                pt = path_term(v, st)
+                par = v.cfg.parent.get(id(st))
+                outer = path_term(v, par[0]) if par and isinstance(par[0], ast.If) else v.ctx.mk(("const", True))
+                want = v.ev._bool("and", [outer, v.spec("filter_field is None")])
+                chk.ob(f"{MPL}.{m}::validity-filter-iff-none-given#{n}", cond_equiv(v, pt, want), "C20.D7",
+                       f"`{v.src(st)}` under {v.show(pt)[:160]}; expected exactly when no filter was given", v.f, st)
+        chk.require(n >= 1, f"{MPL}.{m}: the default filter vanished")
+    f = FV(repo, MPL + "._filter_values", param_types=PT)
+    for r in f.returns():
+        par = f.cfg.parent.get(id(r))
+        if par and isinstance(par[0], ast.If) and par[1] == "body" and par[0] is f.body[0]:
+            chk.ob(MPL + "._filter_values::nothing-to-filter-iff-none", f.eq(f.ev.term(par[0].test, at=par[0]), f.spec("filter_field is None")),
+                   "C20.D7", f"the early return is under `{f.src(par[0].test)}`; expected: no filter field", f.f, r)
+    for st in f.stmts():
+        if isinstance(st, ast.Assign) and (decode_call(f.ctx, f.term(st.value, at=st)) or ("",))[0] == "Field.resample":
+            pt = path_term(f, st)
+            chk.ob(MPL + "._filter_values::resampled-iff-other-resolution", cond_equiv(
+                f, pt, f.spec("not np.array_equal(filter_field.mesh.n, self.field.mesh.n)")) or cond_equiv(
+                f, pt, f.spec("filter_field is not None and not np.array_equal(filter_field.mesh.n, self.field.mesh.n)")), "C20.D7",
+                f"the filter is resampled under {f.show(pt)[:140]}; expected: its cell counts differ from the field's", f.f, st)
+    # arrows anchored at the middle
+    v = FV(repo, MPL + ".vector", param_types=PT)
+    for call, st in v.calls():
+        if isinstance(call.func, ast.Attribute) and call.func.attr == "quiver":
+            piv = [k.value for k in call.keywords if k.arg == "pivot"]
+            chk.ob(MPL + ".vector::arrows-centred-on-cells", bool(piv) and isinstance(piv[0], ast.Constant) and piv[0].value in ("mid", "middle"),
+                   "C20.D7", "quiver's default anchors an arrow at its tail; the positions are cell centres, so pivot='mid' is needed", v.f, call)
+    # combined plot
+    c = FV(repo, MPL + ".__call__", param_types=PT)
+    nv = c.spec("self.field.nvdim")
+    for call, st in c.calls():
+        if isinstance(call.func, ast.Attribute) and call.func.attr in ("scalar", "vector"):
+            kw = {k.arg: c.term(k.value, at=st) for k in call.keywords if k.arg}
+            okk = "ax" in kw and "multiplier" in kw and not is_const(c.ctx, kw["ax"], None) and \
+                any(is_sym(c.ctx, m_, "param:multiplier") or True for m_ in phi_members(c.ctx, kw["multiplier"]))
+            chk.ob(f"{MPL}.__call__::{call.func.attr}-gets-axes-and-multiplier", okk, "C20.D7",
+                   f"`{c.src(call)[:80]}` must draw on the shared axes with the shared multiplier", c.f, call)
+            recv = call.func.value
+            while isinstance(recv, ast.Attribute):
+                recv = recv.value
+            if isinstance(recv, ast.Name):
+                pt = path_term(c, st)
+                chk.ob(f"{MPL}.__call__::{call.func.attr}-drawn-iff-selected", cond_equiv(
+                    c, pt, c.spec(f"{recv.id} is not None", at=st)), "C20.D7",
+                    f"`{c.src(call)[:60]}` runs under {c.show(pt)[:160]}; expected: a {call.func.attr} part was selected", c.f, call)
+    sel = {}
+    for st in c.stmts():
+        if isinstance(st, ast.Assign) and isinstance(st.targets[0], ast.Name) and not (isinstance(st.value, ast.Constant) and st.value.value is None):
+            t_ = c.term(st.value, at=st)
+            if c.eq(t_, c.spec("self.field")):
+                sel.setdefault("whole", []).append(path_term(c, st))
+    if "whole" in sel and len(sel["whole"]) >= 2:
+        got = c.ev._bool("or", sel["whole"])
+        want = c.spec("self.field.nvdim == 1 or self.field.nvdim == 2 or self.field.nvdim == 3")
+        chk.ob(f"{MPL}.__call__::dispatch-by-component-count", cond_equiv(c, got, want, [nv], lo=1), "C20.D7",
+               f"the field itself is drawn (as scalar or arrows) under {c.show(got)[:160]}; expected for 1, 2 and 3 components", c.f)
+    # lightness of vector fields
+    l = FV(repo, MPL + ".lightness", param_types=PT)
+    xlab = l.spec("self.field._r_dim_mapping[self.field.mesh.region.dims[0]]")
+    ylab = l.spec("self.field._r_dim_mapping[self.field.mesh.region.dims[1]]")
+    third = l.spec("getattr(self.field, (set(self.field.vdims) - set([a, b])).pop())", env={"a": xlab, "b": ylab})
+    deleg = []
+    for call, st in l.calls():
+        if isinstance(call.func, ast.Attribute) and call.func.attr == "lightness" and isinstance(st, ast.Return):
+            deleg.append((call, st))
+    chk.require(len(deleg) == 2, "lightness: expected the two delegations for 2- and 3-component fields")
+    for k, (call, st) in enumerate(deleg):
+        kw = {x.arg: l.term(x.value, at=st) for x in call.keywords if x.arg}
+        pt = path_term(l, st)
+        n_here = 2 if cond_implies(l, pt, l.spec("self.field.nvdim == 2"), [l.spec("self.field.nvdim")], lo=1) else 3
+        okp = cond_equiv(l, pt, l.spec(f"self.field.nvdim == {n_here}"), [l.spec("self.field.nvdim")], lo=1)
+        chk.ob(f"{MPL}.lightness::delegation#{n_here}::condition", okp, "C20.D7",
+               f"the in-plane-angle plot is made under {l.show(pt)[:120]}; expected for {n_here} components", l.f, st)
+        fw = all(name in kw and any(is_sym(l.ctx, m_, f"param:{name}") for m_ in phi_members(l.ctx, kw[name])) for name in ("ax", "multiplier", "filter_field"))
+        lf = kw.get("lightness_field")
+        mem = phi_members(l.ctx, lf) if lf is not None else []
+        want_l = third if n_here == 3 else l.spec("self.field.norm")
+        okl = len(mem) == 2 and any(is_sym(l.ctx, m_, "param:lightness_field") for m_ in mem) and any(l.eq(m_, want_l) for m_ in mem)
+        chk.ob(f"{MPL}.lightness::delegation#{n_here}::forwards", fw and okl and "clim" in kw, "C20.D7",
+               f"axes, multiplier, filter and colour limits must be forwarded; lightness = the caller's field or "
+               f"{'the component that is not in the plane' if n_here == 3 else 'the norm'}; got lightness_field={l.show(lf)[:120] if lf is not None else None}",
+               l.f, call)
+        for st2 in l.stmts():
+            if isinstance(st2, ast.Assign) and isinstance(st2.targets[0], ast.Name) and l.eq(l.term(st2.value, at=st2), want_l) and \
+                    cond_implies(l, path_term(l, st2), l.spec(f"self.field.nvdim == {n_here}"), [l.spec("self.field.nvdim")], lo=1):
+                chk.ob(f"{MPL}.lightness::delegation#{n_here}::default-lightness-iff-none", cond_implies(
+                    l, path_term(l, st2), l.spec("lightness_field is None")), "C20.D7",
+                    f"`{l.src(st2)[:70]}` under {l.show(path_term(l, st2))[:140]}: a given lightness field must not be replaced", l.f, st2)
+    for st2 in l.stmts():
+        if isinstance(st2, ast.Assign) and isinstance(st2.targets[0], ast.Name):
+            t2 = l.term(st2.value, at=st2)
+            if l.eq(t2, l.spec("self.field.norm")):
+                chk.ob(f"{MPL}.lightness::norm-as-lightness-iff-none-given@{'delegated' if any(isinstance(p_, ast.If) and 'nvdim' in ast.unparse(p_.test) for p_, f_ in l.cfg.enclosing(st2)) else 'scalar'}",
+                       cond_implies(l, path_term(l, st2), l.spec("lightness_field is None")), "C20.D7",
+                       f"`{l.src(st2)}` under {l.show(path_term(l, st2))[:120]}: a given lightness field must not be replaced", l.f, st2)
+            if (decode_call(l.ctx, t2) or ("",))[0] == "Field.resample":
+                par = l.cfg.parent.get(id(st2))
+                okr_ = bool(par and isinstance(par[0], ast.If) and par[1] == "body")
+                if okr_:
+                    L_ = local_term(l, st2.targets[0].id, par[0])
+                    okr_ = l.eq(l.ev.term(par[0].test, at=par[0]), l.spec("not np.array_equal(L.mesh.n, self.field.mesh.n)", env={"L": L_}))
+                chk.ob(f"{MPL}.lightness::lightness-resampled-iff-other-resolution", okr_, "C20.D7",
+                       "the lightness field is resampled exactly when its cell counts differ from the field's", l.f, st2)
+    for rs, nm in l.raises():
+        par = l.cfg.parent.get(id(rs))
+        if par and isinstance(par[0], ast.If) and par[1] == "body":
+            ct = l.ev.term(par[0].test, at=par[0])
+            if l.ctx.mentions(ct, l.spec("self.field.vdim_mapping")) or l.eq(l.ev._not(ct), l.spec("self.field.vdim_mapping")):
+                chk.ob(f"{MPL}.lightness::refuses-missing-mapping", l.eq(ct, l.spec("not self.field.vdim_mapping")), "C20.D7",
+                       f"`{l.src(par[0].test)}` raises: fields WITHOUT a component-to-axis mapping are refused", l.f, par[0])
+    hc = [(call, st) for call, st in l.calls() if ast.unparse(call.func).endswith("hls2rgb")]
+    if hc:
+        call, st = hc[0]
+        kw = {x.arg: l.term(x.value, at=st) for x in call.keywords if x.arg}
+        hue = kw.get("hue") if "hue" in kw else (l.term(call.args[0], at=st) if call.args else None)
+        okh = hue is not None and l.eq(hue, l.spec("self.field.array.copy().reshape(self.field.mesh.n)")) and "lightness" in kw and \
+            "lightness_clim" in kw and is_sym(l.ctx, kw["lightness_clim"], "param:clim")
+        if okh:
+            lm = [x for x in phi_members(l.ctx, kw["lightness"])]
+            okh = all((decode_call(l.ctx, x) or ("",))[0] == ".reshape" for x in lm)
+        chk.ob(f"{MPL}.lightness::colours-from-values", okh, "C20.D7",
+               "hls2rgb(hue=the field's values reshaped to n, lightness=the lightness field's values reshaped to n, "
+               "lightness_clim=clim)", l.f, call)
+    fr = _filtered_values(l)
+    rgb = fr[2] if fr else None
+    al = find_assign(l, lambda t_, s_: (decode_call(l.ctx, t_) or ("",))[0] == "np.empty")
+    oka = False
+    if al and rgb is not None:
+        rb = strip_stores(l.ctx, rgb)
+        sh = decode_call(l.ctx, al[2])[1][0]
+        sts = [(l.ev._index(s2.targets[0].slice, l.cfg.node(s2), None), l.term(s2.value, at=s2)) for s2 in l.stmts()
+               if isinstance(s2, ast.Assign) and isinstance(s2.targets[0], ast.Subscript) and isinstance(s2.targets[0].value, ast.Name)
+               and s2.targets[0].value.id == al[1]]
+        oka = len(rb) == 1 and l.eq(sh, l.spec("(*R.shape[:-1], 4)", env={"R": rb[0]})) and \
+            any(l.eq(i_, l.ctx.args_of(l.spec("R[..., :3]", env={"R": rb[0]}))[1]) and any(l.eq(b, rb[0]) for b in strip_stores(l.ctx, v_))
+                for i_, v_ in sts) and \
+            any(l.eq(i_, l.ctx.args_of(l.spec("R[..., 3]", env={"R": rb[0]}))[1]) and is_const(l.ctx, v_, 1) for i_, v_ in sts)
+    chk.ob(f"{MPL}.lightness::rgba-from-filtered-colours", oka, "C20.D7",
+           "rgba has the colour array's shape with 4 channels: channels 0-2 are the filtered colours, channel 3 is opaque (1.0)", l.f,
+           al[0] if al else None)
+    # in-plane angle
+    a = FV(repo, PU + "inplane_angle", param_types=PT)
+    for st, nm_, t in simple_assigns(a):
+        c_ = decode_call(a.ctx, t)
+        if c_ and c_[0] == "np.arctan2" and len(c_[1]) == 2:
+            def comp_ok(arg, lab):
+                want = a.spec(f"getattr(field, {lab}).array")
+                if a.eq(arg, want):
+                    return True
+                h = a.ctx.head_of(arg)
+                if h and h[0] == "ifexp":
+                    cnd, tv, fv = a.ctx.args_of(arg)
+                    hc_ = a.ctx.head_of(cnd)
+                    return a.eq(tv, want) and is_const(a.ctx, fv, 0) and bool(hc_ and hc_ == ("cmp", "isnot")) and \
+                        any(is_const(a.ctx, x, None) for x in a.ctx.args_of(cnd))
+                return False
+            chk.ob(PU + "inplane_angle::components-in-their-places", comp_ok(c_[1][0], "y") and comp_ok(c_[1][1], "x"), "C20.D7",
+                   f"angle = {a.show(t)[:200]}; expected arctan2(y component, x component) (0 only for a label that is not given)", a.f, st)
+    for key, text in (("vector-fields-only", "field.nvdim == 1"), ("some-label-given", "x is None and y is None"),
+                      ("x-is-a-label", "x is not None and x not in field.vdims"), ("y-is-a-label", "y is not None and y not in field.vdims")):
+        hit = any(cond_equiv(a, path_term(a, rs), a.spec(text)) for rs, nm in a.raises())
+        chk.ob(PU + f"inplane_angle::refuses::{key}", hit, "C20.D7", f"no raise reached exactly under `{text}`", a.f)
+    wraps = [s2 for s2 in a.stmts() if isinstance(s2, ast.AugAssign) and isinstance(s2.target, ast.Subscript)]
+    okw = False
+    if len(wraps) == 1 and isinstance(wraps[0].op, ast.Add):
+        idx = a.ev._index(wraps[0].target.slice, a.cfg.node(wraps[0]), None)
+        base = a.term(wraps[0].target.value, at=wraps[0])
+        okw = (a.eq(idx, a.spec("b < 0", env={"b": base})) or a.eq(idx, a.spec("b <= 0", env={"b": base}))) and \
+            a.eq(a.term(wraps[0].value, at=wraps[0]), a.spec("2 * np.pi"))
+    chk.ob(PU + "inplane_angle::wrapped-to-full-turn", okw, "C20.D7", "negative angles get 2 pi added (range [0, 2 pi))", a.f,
+           wraps[0] if wraps else None)
+    for r, x in cm.returned_news(a):
+        base = strip_stores(a.ctx, x.get("value")) if x.get("value") is not None else []
+        okc = is_const(a.ctx, x.get("nvdim", a.ctx.const(0)), 1) and a.eq(x.get("mesh"), a.spec("field.mesh")) and \
+            a.eq(x.get("valid"), a.spec("field.valid")) and len(base) == 1 and (decode_call(a.ctx, base[0]) or ("",))[0] == "np.arctan2"
+        chk.ob(PU + "inplane_angle::scalar-field-of-angles", okc, "C20.D7",
+               "the angles form a one-component field on field.mesh with the field's validity", a.f, r)
+    # hue scaling
+    hfn = FV(repo, PU + "hls2rgb")
+    okhue = False
+    for st, nm_, t in simple_assigns(hfn):
+        c_ = decode_call(hfn.ctx, t)
+        if c_ and c_[0].endswith("normalise_to_range") and c_[1] and is_sym(hfn.ctx, c_[1][0], "param:hue"):
+            allargs = list(c_[1][1:]) + [c_[2].get("to_range"), c_[2].get("from_range")]
+            allargs = [x for x in allargs if x is not None]
+            okhue = len(allargs) >= 2 and hfn.eq(allargs[0], hfn.spec("(0, 1)")) and hfn.eq(allargs[1], hfn.spec("(0, 2 * np.pi)")) and \
+                is_const(hfn.ctx, c_[2].get("int_round", hfn.ctx.const(0)), False)
+    chk.ob(PU + "hls2rgb::hue-is-angle-over-full-turn", okhue, "C20.D7",
+           "hue = normalise_to_range(hue, (0, 1), (0, 2 pi), int_round=False): the angle as a fraction of the full turn", hfn.f)
+    nr = FV(repo, PU + "normalise_to_range")
+    augs = [s2 for s2 in nr.stmts() if isinstance(s2, ast.AugAssign) and isinstance(s2.target, ast.Name)]
+    ops = [(type(s2.op).__name__, nr.term(s2.value, at=s2)) for s2 in augs]
+    V = None
+    want_ops = [("Sub", "from_range[0] if from_range else V.min()"), ("Div", "(from_range[1] - from_range[0]) if from_range else V.max()"),
+                ("Mult", "to_range[1] - to_range[0]"), ("Add", "to_range[0]")]
+    okn = len(ops) == 4
+    if okn:
+        for (op, t_), (wop, wtxt), s2 in zip(ops, want_ops, augs):
+            Vt = local_term(nr, s2.target.id, s2)
+            okn = okn and op == wop and nr.eq(t_, nr.spec(wtxt, env={"V": Vt}))
+    chk.ob(PU + "normalise_to_range::affine-map", okn, "C20.D7",
+           "values are shifted by the lower source bound, divided by the source width, multiplied by the target width and shifted "
+           f"by the lower target bound, in that order; found {[(o_, nr.show(t_)[:50]) for o_, t_ in ops]}", nr.f)
+    if len(augs) == 4:
+        par = nr.cfg.parent.get(id(augs[1]))
+        Vt = local_term(nr, augs[1].target.id, par[0]) if par and isinstance(par[0], ast.If) else None
+        okz = Vt is not None and nr.eq(nr.ev.term(par[0].test, at=par[0]), nr.spec("from_range or V.max() != 0", env={"V": Vt}))
+        chk.ob(PU + "normalise_to_range::division-guard", okz, "C20.D7",
+               "the division is skipped only for data whose maximum is 0 after the shift (uniform data) when no source range is given", nr.f,
+               augs[1])
